@@ -51,7 +51,7 @@ pub fn check_cert(cert_bytes: &[u8], lt_pk: &[u8], v: Version, expect_online_pk:
 
 pub fn run_key_part(ctx: &Ctx, evals: &AtomicU64, nontrivial: &AtomicU64) {
     let seeds = seeds_subset(ctx.seed, ctx.tier.pick(40, 600));
-    let maxlen = ctx.tier.pick(4u32, 5);
+    let maxlen = ctx.tier.pick(3u32, 4);
     let now = std::time::SystemTime::now().duration_since(std::time::UNIX_EPOCH).unwrap().as_secs();
     par_for(seeds.len(), 1, |si, _| {
         let (seed, _) = seeds[si];
@@ -79,32 +79,21 @@ pub fn run_key_part(ctx: &Ctx, evals: &AtomicU64, nontrivial: &AtomicU64) {
                 Err(p) => ctx.violation("panic", "LongTermKey::new", "key", detail(p)),
             }
         }
-        // all sequences over {make_cert(classic), make_cert(ietf)} of length <= maxlen on ONE key object,
-        // interleaved with reads
+        // all sequences of length <= maxlen on ONE key object over {classic, ietf} x {a fresh online
+        // key, online key A again, online key B again}, interleaved with reads: a certificate depends
+        // on the version and the online key of THIS call only
         for l in 1..=maxlen {
-            for mask in 0u32..(1 << l) {
+            for code in 0..6usize.pow(l) {
                 evals.fetch_add(1, Relaxed);
                 nontrivial.fetch_add(1, Relaxed);
-                let r = catch(|| {
-                    let mut k = LongTermKey::new(&seed);
-                    let mut out = vec![];
-                    for i in 0..l {
-                        let v = if mask >> i & 1 == 1 { Version::Ietf13 } else { Version::Classic };
-                        let ok = OnlineKey::new();
-                        let opk = ok.make_dele().get_field(roughenough::Tag::PUBK).unwrap().to_vec();
-                        let cert = k.make_cert(&rv(v), &ok).encode().unwrap();
-                        let pk = k.public_key();
-                        let srv = k.srv_value().to_vec();
-                        out.push((v, opk, cert, pk, srv));
-                    }
-                    out
-                });
+                let steps: Vec<usize> = (0..l).map(|i| code / 6usize.pow(i) % 6).collect();
+                let r = catch(|| cert_sequence(&seed, &steps));
                 match r {
-                    Err(p) => ctx.violation("panic", "make_cert", "sequence", detail(format!("mask {:b} len {}: {}", mask, l, p))),
+                    Err(p) => ctx.violation("panic", "make_cert", "sequence", detail(format!("steps {:?}: {}", steps, p))),
                     Ok(out) => {
                         for (pos, (v, opk, cert, pk, srv)) in out.iter().enumerate() {
                             if pk[..] != want_pk[..] || srv[..] != want_srv[..] {
-                                ctx.violation("identity-changes", "LongTermKey", "sequence", detail(format!("mask {:b} pos {}", mask, pos)));
+                                ctx.violation("identity-changes", "LongTermKey", "sequence", detail(format!("steps {:?} pos {}", steps, pos)));
                             }
                             match check_cert(cert, &want_pk, *v, Some(opk)) {
                                 Ok((mint, maxt)) => {
@@ -112,7 +101,10 @@ pub fn run_key_part(ctx: &Ctx, evals: &AtomicU64, nontrivial: &AtomicU64) {
                                         ctx.violation("window-excludes-now", "make_dele", "sequence", detail(format!("mint {} maxt {}", mint, maxt)));
                                     }
                                 }
-                                Err(c) => ctx.violation(&c, "make_cert", "sequence", json!({"kind":"certseq","seed":hex(&seed),"mask":mask,"len":l,"position":pos,"version":v.name(),"cert":hex(cert)})),
+                                Err(c) => {
+                                    let reused = steps[..pos].iter().any(|s| s / 2 == steps[pos] / 2 && steps[pos] / 2 > 0);
+                                    ctx.violation(&c, "make_cert", if reused { "sequence-online-key-certified-before" } else { "sequence" }, json!({"kind":"certseq","seed":hex(&seed),"steps":steps,"position":pos,"version":v.name(),"cert":hex(cert)}))
+                                }
                             }
                         }
                     }
@@ -125,7 +117,41 @@ pub fn run_key_part(ctx: &Ctx, evals: &AtomicU64, nontrivial: &AtomicU64) {
     ctx.cov("cert_sequence_len_max", json!(maxlen));
 }
 
+/// One LongTermKey, one make_cert per step. Step code: bit 0 = version (0 classic, 1 ietf);
+/// code/2 = which online key (0 = a fresh one, 1 = key A, 2 = key B; A and B live for the sequence).
+fn cert_sequence(seed: &[u8; 32], steps: &[usize]) -> Vec<(Version, Vec<u8>, Vec<u8>, Vec<u8>, Vec<u8>)> {
+    let mut k = LongTermKey::new(seed);
+    let fixed = [OnlineKey::new(), OnlineKey::new()];
+    let mut out = vec![];
+    for &st in steps {
+        let v = if st % 2 == 1 { Version::Ietf13 } else { Version::Classic };
+        let fresh;
+        let ok: &OnlineKey = match st / 2 {
+            0 => {
+                fresh = OnlineKey::new();
+                &fresh
+            }
+            n => &fixed[n - 1],
+        };
+        let opk = ok.make_dele().get_field(roughenough::Tag::PUBK).unwrap().to_vec();
+        let cert = k.make_cert(&rv(v), ok).encode().unwrap();
+        out.push((v, opk, cert, k.public_key(), k.srv_value().to_vec()));
+    }
+    out
+}
+
 pub fn replay_case(c: &Value) -> Result<Option<String>, String> {
+    if c["kind"] == "certseq" && c["steps"].is_array() {
+        let seed: [u8; 32] = crypto::unhex(c["seed"].as_str().ok_or("seed")?).try_into().map_err(|_| "seed")?;
+        let steps: Vec<usize> = c["steps"].as_array().unwrap().iter().map(|x| x.as_u64().unwrap_or(0) as usize).collect();
+        let want_pk = crypto::public_key(&seed);
+        for (i, (v, opk, cert, _, _)) in cert_sequence(&seed, &steps).iter().enumerate() {
+            if let Err(e) = check_cert(cert, &want_pk, *v, Some(opk)) {
+                return Ok(Some(format!("position {}: {}", i, e)));
+            }
+        }
+        return Ok(None);
+    }
     if c["kind"] == "certseq" {
         let seed: [u8; 32] = crypto::unhex(c["seed"].as_str().ok_or("seed")?).try_into().map_err(|_| "seed")?;
         let mask = c["mask"].as_u64().ok_or("mask")? as u32;
@@ -240,7 +266,7 @@ pub fn run(ctx: &Ctx) -> Result<(), String> {
     ctx.cov("reply_certs_checked", json!(certs_seen.load(Relaxed)));
     ctx.cov("restart_seeds", json!(seeds.len()));
     ctx.cov("exhaustive", json!(true));
-    ctx.cov("rule", json!("key part: per seed of the structured alphabet (zero, ff, RFC 8032 vectors, single-bit, single-byte-value, seeded random) three constructions give public key == Ed25519(seed) (dalek direct, RFC 8032 anchored) and SRV == SHA-512(0xff||pk)[0..32]; all sequences of length <= L over {make_cert(classic), make_cert(ietf)} with fresh online keys on ONE LongTermKey, each CERT = DELE{PUBK(the online key),MINT,MAXT} signed under that version's delegation context and NOT verifying under the other version's. Live part: per seed 4 restarts of a real in-process Server x event histories (C09 alphabet); the announced key equals the reference key; the CERT of every datagram emitted by either responder passes the same check and its window contains the reply's MIDP. Non-trivial = a cert sequence or an emitted reply's CERT."));
+    ctx.cov("rule", json!("key part: per seed of the structured alphabet (zero, ff, RFC 8032 vectors, single-bit, single-byte-value, seeded random) three constructions give public key == Ed25519(seed) (dalek direct, RFC 8032 anchored) and SRV == SHA-512(0xff||pk)[0..32]; all sequences of length <= L over {make_cert(classic), make_cert(ietf)} x {fresh online key, online key A again, online key B again} on ONE LongTermKey, each CERT = DELE{PUBK(the online key),MINT,MAXT} signed under that version's delegation context and NOT verifying under the other version's. Live part: per seed 4 restarts of a real in-process Server x event histories (C09 alphabet); the announced key equals the reference key; the CERT of every datagram emitted by either responder passes the same check and its window contains the reply's MIDP. Non-trivial = a cert sequence or an emitted reply's CERT."));
     ctx.sample(json!({"kind":"certseq","mask":"0b0110","len":4,"versions":["classic","ietf13","ietf13","classic"]}));
     ctx.sample(json!({"kind":"restart","restarts":4,"events":["C0","I1","step"]}));
     ctx.assume("ed25519-dalek arithmetic trusted (RFC 8032 vectors); seeds are a structured alphabet, not all 2^256");
